@@ -409,7 +409,7 @@ def run_property(args):
     wall = time.time() - t0
     # obligations that fail only because of a recorded known finding are
     # reported under known_findings, not counted as (un)discharged obligations
-    n_known = len(known_hits) + len(engine_known_all)
+    n_known = sum(1 for r in known_hits if REGISTRY[r["contract"]].kind != "bounded") + len(engine_known_all)
     obligations = total + ex_total - n_known
     dis = discharged + ex_dis
     ev = dict(
